@@ -718,6 +718,19 @@ func (ts *TermStore) Ult(a, b *Term) *Term {
 
 func (ts *TermStore) Ule(a, b *Term) *Term { return ts.BNot(ts.Ult(b, a)) }
 
+// RangeConstraint builds lo <= t <= hi without consulting t's declared
+// interval (it is the constraint that establishes that interval).
+func (ts *TermStore) RangeConstraint(t *Term, lo, hi uint64) *Term {
+	c := ts.True()
+	if lo > 0 {
+		c = ts.And(c, ts.BNot(ts.pred(OUlt, t, ts.Const(t.W, lo))))
+	}
+	if hi < mask(t.W) {
+		c = ts.And(c, ts.BNot(ts.pred(OUlt, ts.Const(t.W, hi), t)))
+	}
+	return c
+}
+
 func (ts *TermStore) Slt(a, b *Term) *Term {
 	w := a.W
 	if a.IsConst() && b.IsConst() {
